@@ -468,6 +468,13 @@ def generate(rng, idx, tier, variant):
             ops.append({'op': 'edit_endogenous', 'obj': who, 'how': rng.choice(['append', 'append', 'remove']), 'k': rng.randrange(4)})
         elif r < 0.55:
             ops.append({'op': 'eval', 'obj': who, 'expr': rng.choice(['{a} + 1', '{a} * {b}', '{a}[0] + nosuchname', '1 / ({a} - {a})', 'log({a} * 0)', '{a}[', 'lag({a})']), 'a': rng.choice(names), 'b': rng.choice(names), 'warnings_': rng.choice(['ignore', 'always', 'error'])})
+    if spec['kind'] == 'scripted' and not wide and rng.random() < 0.08:
+        # the instance's own convergence-check list edited after construction (appended to, shortened, or assigned anew): from
+        # then on it, not the class's, says which values must be finite at the start and must stop moving
+        k_ = rng.randrange(len(ops) + 1)
+        while k_ > 0 and ops[k_ - 1]['op'] not in ('solve_t', 'solve_period', 'solve1', 'solve', 'poke', 'copy', 'add_variable', 'edit_endogenous', 'eval'):
+            k_ -= 1
+        ops.insert(k_, {'op': 'edit_check', 'obj': rng.randrange(2) if two else 0, 'how': rng.choice(['append', 'append', 'remove', 'assign']), 'k': rng.randrange(6)})
     spec.pop('_allow_huge', None)
     sched = {'spec': spec, 'ops': ops, 'np_err': np_err}
     if rng.random() < 0.1 and _no_numpy_warning_possible(sched):
@@ -853,6 +860,21 @@ def execute(schedule, ctx):
                 ctx.probe('history:instance-endogenous-' + op['how'])
             ctx.log(step, 'edit_endogenous', list(lst))
             ctx.outcome('edit_endogenous', 'ok')
+            continue
+        if op['op'] == 'edit_check':
+            lst = m.check
+            if isinstance(lst, list):
+                if op['how'] == 'assign':
+                    pool_ = spec['endo'] + spec['exo']
+                    m.check = [pool_[(op['k'] + j_) % len(pool_)] for j_ in range(1 + op['k'] % 2)]
+                else:
+                    cands = [x for x in spec['endo'] + spec['exo'] if x not in lst] if op['how'] == 'append' else list(lst)
+                    if cands:
+                        nm_ = cands[op['k'] % len(cands)]
+                        lst.append(nm_) if op['how'] == 'append' else lst.remove(nm_)
+                ctx.probe('history:instance-check-' + op['how'])
+            ctx.log(step, 'edit_check', list(m.check))
+            ctx.outcome('edit_check', 'ok')
             continue
         if op['op'] == 'eval':
             # an unrelated container facility used between solves (it installs its own warning filter while it runs)
